@@ -23,6 +23,8 @@ Proved.
 -/
 import OsmoVerif.Proofs.CLFullGenesisReach
 import OsmoVerif.Props.C08IncHist
+import OsmoVerif.Proofs.AccumGenesisReach
+import OsmoVerif.Props.C19
 
 namespace OsmoVerif.Props.C19CL
 open OsmoVerif.CLInc OsmoVerif.CLFees OsmoVerif.CLPool
@@ -214,5 +216,26 @@ theorem cl_full_range_record_recomputed_witness :
     (exportImportG clMid).map (·.fullRange) = some (159580700587508388058699999999 + 797903502937541940293499999999) ∧
     sumFullRange clMid.full.fees.pool.positions = 159580700587508388058699999999 + 797903502937541940293499999999 := by
   decide +kernel
+
+/-! ## osmoutils/accum: the store-level theorem of `Props/C19` on reachable stores -/
+
+/-- **export → import of the accumulator store is the identity on every reachable store** (any disciplined history — C15's quantifier —
+of make / grow / new position / add / remove / update / set interval / add unclaimed / claim / delete from the empty store): the
+hypotheses of `C19.accum_export_import_eq` (distinct names, distinct position keys, no key separator in a name) are reachable-state
+invariants -/
+theorem accum_export_import_on_reachable (ops : List Accum.Op) (hd : Accum.disciplined Accum.Store.empty ops = true) :
+    Det.accumImport (Det.accumExport (Accum.run Accum.Store.empty ops)) = some (Accum.run Accum.Store.empty ops) := by
+  have hI := Accum.inv_run ops Accum.Store.empty Accum.inv_empty hd
+  have hu := Accum.uniqK_accs_run ops Accum.Store.empty Accum.inv_empty trivial hd
+  refine C19.accum_export_import_eq _ (Accum.nodup_of_uniqK hu) (Accum.nodup_of_uniqK hI.uniq) (fun a ha => ?_)
+  obtain ⟨c, hc⟩ := Accum.mem_alookup_isSome _ a ha
+  exact hI.nosep a.1 c hc
+
+/-- … hence every later operation sequence behaves identically on the imported store -/
+theorem accum_run_after_import_on_reachable (ops : List Accum.Op) (hd : Accum.disciplined Accum.Store.empty ops = true)
+    (later : List Accum.Op) :
+    (Det.accumImport (Det.accumExport (Accum.run Accum.Store.empty ops))).map (fun s => Accum.run s later) =
+      some (Accum.run (Accum.run Accum.Store.empty ops) later) := by
+  rw [accum_export_import_on_reachable ops hd]; rfl
 
 end OsmoVerif.Props.C19CL
